@@ -583,3 +583,610 @@ def r05_3(ctx, repo):
                     'n_parameters = %s' % (names.axes[0].size, P),
                     engine=ENG)
     ctx.floor(rule, 20)
+
+
+# -----------------------------------------------------------------------------
+# R02.4 — layout of the hierarchical parameter vector [BOTTOM | TOP]
+# -----------------------------------------------------------------------------
+N_HDIM = sym('n_hdim')
+N_TOP = sym('n_top')
+
+
+def _hier_env():
+    return {
+        'self._n_ids': N_IDS, 'self._n_dim': N_DIM,
+        'self._n_bottom': N_IDS * N_DIM,
+        'self._n_parameters': N_IDS * N_DIM + N_TOP,
+        'self._log_likelihoods': Arr([Ax(N_IDS)], is_list=True),
+        'unique': False, 'exclude_bottom_level': False, 'include_ids': False,
+    }
+
+
+class _HierLifter(ShapeLifter):
+    """Knows the few getters the hierarchical likelihood calls on its
+    sub-objects (configuration: no special dimensions, n_hdim = n_dim)."""
+
+    def _call(self, n, env, fn, depth, owner):
+        f = U(n.func)
+        if f.endswith('_population_model.n_parameters'):
+            return N_TOP
+        if f.endswith('_population_model.get_parameter_names'):
+            return Arr([Ax(N_TOP)], is_list=True)
+        if f.endswith('.get_parameter_names') and 'log_likelihood' in f:
+            return Arr([Ax(N_DIM)], is_list=True)
+        if f.endswith('_population_model.get_special_dims'):
+            return Tup([Arr([Ax(0, ())], is_list=True), sp.Integer(0),
+                        sp.Integer(0)])
+        if f.endswith('.get_id') and 'log_likelihood' in f:
+            return Opaque('id')
+        return super()._call(n, env, fn, depth, owner)
+
+
+def _bottom_top(ctx, rule, repo, cls, fn, val, what, top_size):
+    construct = '%s.%s' % (cls, fn.name)
+    where = repo.loc(fn, cls, fn.name)
+    if not (isinstance(val, Arr) and val.ndim == 1 and val.parts
+            and len(val.parts) == 2):
+        ctx.error(rule, '%s: %s not derived as [bottom | top] (%r)' % (
+            construct, what, val))
+        return
+    bottom, top = val.parts
+    want = ((N_IDS.name, N_IDS), (N_DIM.name, N_DIM))
+    if nest_eq(bottom.axes[0].nest, want):
+        ctx.ok(rule, where, construct,
+               '%s: bottom block laid out (n_ids > n_dim), i.e. one block '
+               'per individual' % what, engine=ENG)
+    else:
+        ctx.violation(
+            rule, where, construct, 'bottom layout',
+            '%s lays the individual-level block out as (%s); the parameter '
+            'vector is parsed per individual, (n_ids > n_dim): entry k is '
+            'labelled with the wrong individual / parameter' % (
+                what, nest_str(bottom.axes[0].nest)), engine=ENG)
+    if eq(top.axes[0].size, top_size):
+        ctx.ok(rule, where, construct,
+               '%s: population block has n_top entries and comes last'
+               % what, engine=ENG)
+    else:
+        ctx.violation(
+            rule, where, construct, 'top length',
+            '%s has %s population-level entries, expected %s' % (
+                what, top.axes[0].size, top_size), engine=ENG)
+
+
+def r02_4(ctx, repo):
+    rule = 'R02.4'
+    cls = 'HierarchicalLogLikelihood'
+    for m, what in (('get_id', 'published IDs'),
+                    ('get_parameter_names', 'published names')):
+        fn = repo.method(cls, m)
+        lf = _HierLifter(repo, cls, flags={
+            'unique': False, 'exclude_bottom_level': False,
+            'include_ids': False})
+        try:
+            val = lf.run(fn, _hier_env())
+        except Exception as e:
+            ctx.error(rule, '%s.%s: %s' % (cls, m, e))
+            continue
+        _bottom_top(ctx, rule, repo, cls, fn, val, what, N_TOP)
+    # cut point and roles in __call__ / evaluateS1
+    for m in ('__call__', 'evaluateS1'):
+        fn = repo.method(cls, m)
+        construct = '%s.%s' % (cls, m)
+        roles = {}
+        for s in fn.body:
+            if isinstance(s, ast.Assign) and isinstance(
+                    s.targets[0], ast.Name) and isinstance(
+                    s.value, ast.Subscript) and U(s.value.value) == \
+                    'parameters' and isinstance(s.value.slice, ast.Slice):
+                sl = s.value.slice
+                if sl.lower is None and sl.upper is not None:
+                    roles[s.targets[0].id] = ('BOTTOM', U(sl.upper), s)
+                elif sl.upper is None and sl.lower is not None:
+                    roles[s.targets[0].id] = ('TOP', U(sl.lower), s)
+        cuts = {c for _, c, _ in roles.values()}
+        where = repo.loc(fn, cls, m)
+        if sorted(r for r, _, _ in roles.values()) != ['BOTTOM', 'TOP'] \
+                or cuts != {'self._n_bottom'}:
+            ctx.violation(
+                rule, where, construct, 'cut',
+                'the flat vector is not cut into [:n_bottom] (individual '
+                'level) and [n_bottom:] (population level): %s' % {
+                    k: (r, c) for k, (r, c, _) in roles.items()},
+                engine=ENG)
+            continue
+        ctx.ok(rule, where, construct, 'vector cut at self._n_bottom: '
+               'bottom first, population parameters last', engine=ENG)
+        # role discipline at the population-model calls
+        bottom = [k for k, v in roles.items() if v[0] == 'BOTTOM'][0]
+        top = [k for k, v in roles.items() if v[0] == 'TOP'][0]
+        for c in ast.walk(fn):
+            if not (isinstance(c, ast.Call) and isinstance(
+                    c.func, ast.Attribute) and U(c.func.value) ==
+                    'self._population_model'):
+                continue
+            meth = c.func.attr
+            if meth not in ('compute_individual_parameters',
+                            'compute_log_likelihood',
+                            'compute_sensitivities'):
+                continue
+            args = {k.arg: k.value for k in c.keywords if k.arg}
+            pos = list(c.args)
+            p = args.get('parameters', pos[0] if pos else None)
+            second = args.get('eta', args.get('observations',
+                                              pos[1] if len(pos) > 1
+                                              else None))
+            ok = isinstance(p, ast.Name) and p.id == top and isinstance(
+                second, ast.Name) and second.id in (bottom, 'psi')
+            if ok:
+                ctx.ok(rule, repo.loc(c, cls, m), construct,
+                       '`%s` receives the population block as parameters '
+                       'and the individual block as %s' % (
+                           meth, 'eta' if 'individual' in meth
+                           else 'observations'), engine=ENG)
+            else:
+                ctx.violation(
+                    rule, repo.loc(c, cls, m), construct,
+                    'roles ' + meth,
+                    '`%s` is called with parameters=`%s` and eta/'
+                    'observations=`%s`; expected the population block '
+                    '`%s` and the individual block `%s`' % (
+                        meth, U(p) if p is not None else '?',
+                        U(second) if second is not None else '?',
+                        top, bottom), engine=ENG)
+    # flat eta reshape in every population model
+    for k in repo.subclasses('PopulationModel', strict=True):
+        fn = repo.cls(k).methods.get('compute_individual_parameters')
+        if fn is None or repo.is_abstract(fn):
+            continue
+        if not any(isinstance(x, ast.Attribute) and x.attr == 'reshape'
+                   for x in ast.walk(fn)) and not any(
+                isinstance(x, ast.Attribute) and x.attr == '_shape_eta'
+                for x in ast.walk(fn)):
+            continue
+        env = _class_invariants(repo, k)
+        P = env.get('self._n_parameters', N_TOP)
+        if not isinstance(P, sp.Expr):
+            P = N_TOP
+        env.update({
+            'eta': Arr([Ax(N_IDS * N_DIM, (('?eta', N_IDS * N_DIM),))]),
+            'parameters': Arr([Ax(P, (('?theta', P),))]),
+            'return_eta': True, 'covariates': None,
+            'self._n_pooled_dims': sp.Integer(0),
+            'self._n_hetero_dims': sp.Integer(0),
+            'self._special_dims': Arr([Ax(0, ())], is_list=True)})
+        lf = ShapeLifter(repo, k, flags={'self._centered': True,
+                                         'return_eta': True})
+        try:
+            lf.run(fn, env)
+        except Exception:
+            pass
+        construct = '%s.compute_individual_parameters' % k
+        where = repo.loc(fn, k, fn.name)
+        d = lf.defined.get('?eta')
+        if d is None:
+            continue
+        want = ((N_IDS.name, N_IDS), (N_DIM.name, N_DIM))
+        if nest_eq(d, want):
+            ctx.ok(rule, where, construct,
+                   'flat eta is read as (n_ids > n_dim)', engine=ENG)
+        else:
+            ctx.violation(
+                rule, where, construct, 'eta layout',
+                'the flat individual-level vector is reshaped as (%s); it '
+                'is published (names, IDs) per individual, (n_ids > n_dim)'
+                % nest_str(d), engine=ENG)
+    ctx.floor(rule, 12)
+
+
+# -----------------------------------------------------------------------------
+# R02.3 — eta / psi discipline (role qualifiers, engine A)
+# -----------------------------------------------------------------------------
+ETA_PSI_FUNCS = (
+    ('HierarchicalLogLikelihood', '__call__'),
+    ('HierarchicalLogLikelihood', 'evaluateS1'),
+    ('PopulationFilterLogPosterior', '__call__'),
+    ('PopulationFilterLogPosterior', 'evaluateS1'),
+    ('PopulationPredictiveModel', 'sample'),
+)
+
+
+def _kwarg(call, name, pos):
+    for k in call.keywords:
+        if k.arg == name:
+            return k.value
+    if pos is not None and pos < len(call.args):
+        return call.args[pos]
+    return None
+
+
+def _qual_of(expr, env):
+    """Qualifier of an expression: follows subscripts / reshapes."""
+    cur = expr
+    while True:
+        if isinstance(cur, ast.Name):
+            return env.get(cur.id)
+        if isinstance(cur, ast.Subscript):
+            cur = cur.value
+            continue
+        if isinstance(cur, ast.Call) and isinstance(
+                cur.func, ast.Attribute) and cur.func.attr in (
+                'reshape', 'flatten', 'copy'):
+            cur = cur.func.value
+            continue
+        if isinstance(cur, ast.Call) and U(cur.func) in (
+                'np.asarray', 'np.array') and cur.args:
+            cur = cur.args[0]
+            continue
+        return None
+
+
+def r02_3(ctx, repo):
+    rule = 'R02.3'
+    for cls, m in ETA_PSI_FUNCS:
+        fn = repo.method(cls, m)
+        construct = '%s.%s' % (cls, m)
+        env = {'parameters': 'RAW'}
+        n_sites = [0]
+
+        def need(call, arg, wanted, what):
+            q = _qual_of(arg, env) if arg is not None else None
+            where = repo.loc(call, cls, m)
+            n_sites[0] += 1
+            if q in wanted:
+                ctx.ok(rule, where, construct,
+                       '%s receives %s-space values' % (what, q))
+            elif q is None:
+                ctx.error(rule, '%s: cannot qualify `%s` handed to %s' % (
+                    construct, U(arg)[:40] if arg is not None else '?',
+                    what))
+            else:
+                ctx.violation(
+                    rule, where, construct, '%s gets %s' % (what, q),
+                    '%s receives `%s`, which holds %s; it needs %s: %s' % (
+                        what, U(arg)[:40],
+                        {'ETA': 'the inter-individual fluctuations eta',
+                         'RAW': 'the raw individual-level block of the '
+                                'parameter vector',
+                         'PSI': 'the transformed individual parameters '
+                                'psi'}[q],
+                        ' or '.join(wanted),
+                        'the population density must score eta (standard '
+                        'normal for non-centred models)' if 'ETA' in wanted
+                        else 'the individual likelihoods / the mechanistic '
+                        'model are evaluated at the model parameters psi, '
+                        'i.e. after the population transform'))
+
+        def visit(stmts):
+            for s in stmts:
+                if isinstance(s, ast.For):
+                    q = _qual_of(s.iter.args[0], env) if isinstance(
+                        s.iter, ast.Call) and U(s.iter.func) == 'enumerate' \
+                        and s.iter.args else _qual_of(s.iter, env)
+                    tg = s.target
+                    names = [x.id for x in ast.walk(tg)
+                             if isinstance(x, ast.Name)]
+                    if q and names:
+                        env[names[-1]] = q
+                    visit(s.body)
+                    continue
+                if isinstance(s, (ast.If, ast.While)):
+                    visit(s.body)
+                    visit(s.orelse)
+                    continue
+                if isinstance(s, ast.Try):
+                    visit(s.body)
+                    continue
+                if isinstance(s, ast.With):
+                    visit(s.body)
+                    continue
+                calls = [c for c in ast.walk(s) if isinstance(c, ast.Call)
+                         and isinstance(c.func, ast.Attribute)]
+                produced = None
+                for c in calls:
+                    recv, meth = U(c.func.value), c.func.attr
+                    if recv == 'self._population_model':
+                        if meth == 'compute_individual_parameters':
+                            eta = _kwarg(c, 'eta', 1)
+                            need(c, eta, ('RAW', 'ETA'),
+                                 'the population transform (eta argument)')
+                            ret = _kwarg(c, 'return_eta', 3)
+                            produced = 'ETA' if (
+                                isinstance(ret, ast.Constant)
+                                and ret.value is True) else 'PSI'
+                        elif meth in ('compute_log_likelihood',
+                                      'compute_sensitivities'):
+                            obs = _kwarg(c, 'observations', 1)
+                            need(c, obs, ('ETA',),
+                                 'the population score `%s`' % meth)
+                        elif meth == 'sample':
+                            produced = 'ETA'
+                    elif meth == '_reshape_bottom_parameters' and \
+                            recv == 'self':
+                        need(c, c.args[0] if c.args else None,
+                             ('RAW',), 'the special-dimension scatter')
+                        produced = 'ETA'
+                    elif meth == 'evaluateS1' and 'log_likelihood' in recv \
+                            and c.args:
+                        need(c, c.args[0], ('PSI',),
+                             'the individual log-likelihood (evaluateS1)')
+                    elif meth == 'simulate' and 'mechanistic_model' in recv:
+                        need(c, _kwarg(c, 'parameters', 0), ('PSI',),
+                             'the mechanistic model')
+                    elif meth == 'sample' and recv == \
+                            'self._predictive_model':
+                        need(c, _kwarg(c, 'parameters', 0), ('PSI',),
+                             'the individual predictive model')
+                for c in ast.walk(s):
+                    if isinstance(c, ast.Call) and isinstance(
+                            c.func, ast.Name) and c.func.id == \
+                            'log_likelihood' and c.args:
+                        need(c, c.args[0], ('PSI',),
+                             'the individual log-likelihood')
+                if isinstance(s, ast.Assign) and len(s.targets) == 1:
+                    t = s.targets[0]
+                    if isinstance(t, ast.Name):
+                        if produced:
+                            env[t.id] = produced
+                        else:
+                            q = _qual_of(s.value, env)
+                            if q:
+                                env[t.id] = q
+                            else:
+                                env.pop(t.id, None)
+        visit(fn.body)
+        if n_sites[0] == 0:
+            ctx.error(rule, '%s: no eta/psi consumer found' % construct)
+    ctx.floor(rule, 14)
+
+
+# -----------------------------------------------------------------------------
+# R13.1 — layout of the filter-posterior vector [TOP | BOTTOM | EPS]
+# -----------------------------------------------------------------------------
+N_S, N_O, N_T = sym('n_samples'), sym('n_observables'), sym('n_times')
+N_POPP = sym('n_pop')
+D1, D2 = sym('d1'), sym('d2')
+
+
+class _FilterLifter(ShapeLifter):
+    def __init__(self, repo, cls, cfg, flags=None):
+        super().__init__(repo, cls, flags)
+        self.cfg = cfg
+        self.generic_compare = True
+
+    def _call(self, n, env, fn, depth, owner):
+        f = U(n.func)
+        c = self.cfg
+        if f == 'self._population_model.n_parameters':
+            return c['n_pop']
+        if f == 'self._population_model.n_dim':
+            return c['n_dim']
+        if f == 'self._population_model.n_hierarchical_dim':
+            return c['n_hdim']
+        if f == 'self._mechanistic_model.n_parameters':
+            return c['n_dim']
+        if f == 'self._mechanistic_model.parameters':
+            return Arr([Ax(c['n_dim'])], is_list=True)
+        if f == 'self._mechanistic_model.outputs':
+            return Arr([Ax(N_O)], is_list=True)
+        if f == 'copy.copy' and n.args:
+            return self.ev(n.args[0], env, fn, depth, owner)
+        return super()._call(n, env, fn, depth, owner)
+
+
+def _filter_env(cfg, sigma_free):
+    n_top = cfg['n_pop'] + (N_O if sigma_free else 0)
+    n_hdim = cfg['n_hdim']
+    end_bottom = n_top + N_S * n_hdim
+    n_par = end_bottom + N_S * N_O * N_T
+    return {
+        'self._n_samples': N_S, 'self._n_observables': N_O,
+        'self._n_times': N_T, 'self._n_hdim': n_hdim, 'self._n_top': n_top,
+        'self._end_bottom': end_bottom, 'self._n_parameters': n_par,
+        'self._n_pooled_dim': cfg['n_pooled'],
+        'self._n_heterogen_dim': cfg['n_hetero'],
+        'self._special_dims': cfg.get('special', Arr([Ax(0, ())],
+                                                     is_list=True)),
+        'self._top_names': Arr([Ax(n_top)], is_list=True),
+        'self._sigma': None if sigma_free else Arr([Ax(1), Ax(N_O), Ax(1)]),
+        'parameters': Arr([Ax(n_par, (('?parameters', n_par),))]),
+        'unique': False, 'exclude_bottom_level': False, 'include_ids': False,
+    }
+
+
+FILTER_CONFIGS = {
+    'all hierarchical': dict(n_dim=N_DIM, n_hdim=N_DIM, n_pop=N_POPP,
+                             n_pooled=sp.Integer(0), n_hetero=sp.Integer(0)),
+    'all pooled': dict(n_dim=N_DIM, n_hdim=sp.Integer(0), n_pop=N_DIM,
+                       n_pooled=N_DIM, n_hetero=sp.Integer(0)),
+    'all heterogeneous (one sub-model)': dict(
+        n_dim=N_DIM, n_hdim=sp.Integer(0), n_pop=N_S * N_DIM,
+        n_pooled=sp.Integer(0), n_hetero=N_DIM, special=TOP),
+    'all heterogeneous (two sub-models)': dict(
+        n_dim=D1 + D2, n_hdim=sp.Integer(0), n_pop=N_S * (D1 + D2),
+        n_pooled=sp.Integer(0), n_hetero=D1 + D2, two=True, special=TOP),
+}
+
+
+def r13_1(ctx, repo):
+    rule = 'R13.1'
+    cls = 'PopulationFilterLogPosterior'
+    cfgA = FILTER_CONFIGS['all hierarchical']
+    # (1) slices and reshapes of the flat vector in __call__ / evaluateS1
+    layouts = {}
+    for m in ('__call__', 'evaluateS1'):
+        fn = repo.method(cls, m)
+        for sigma_free in (True, False):
+            env = _filter_env(cfgA, sigma_free)
+            lf = _FilterLifter(repo, cls, cfgA, flags={
+                'self._sigma is None': sigma_free,
+                'self._error_on_log_scale': False})
+            # only the parsing prologue is needed: stop at the first call on
+            # the log-prior
+            pro = []
+            for s in fn.body:
+                if any(isinstance(c, ast.Call) and '_log_prior' in U(c.func)
+                       for c in ast.walk(s)):
+                    break
+                pro.append(s)
+            try:
+                lf._block(pro, env, fn, 0, cls)
+            except Exception as e:
+                ctx.error(rule, '%s.%s prologue: %s' % (cls, m, e))
+                continue
+            _emit_events(ctx, rule, repo, cls, fn, lf, '%s.%s' % (cls, m))
+            for k, v in lf.defined.items():
+                layouts.setdefault((m, sigma_free), {})[k] = v
+            construct = '%s.%s' % (cls, m)
+            where = repo.loc(fn, cls, m)
+            bot = env.get('bottom_parameters')
+            eps = env.get('epsilon')
+            okb = isinstance(bot, Arr) and bot.ndim == 2 and eq(
+                bot.axes[0].size, N_S) and eq(bot.axes[1].size, N_DIM)
+            oke = isinstance(eps, Arr) and eps.ndim == 3 and all(
+                eq(a.size, b) for a, b in zip(eps.axes, (N_S, N_O, N_T)))
+            mode = 'sigma free' if sigma_free else 'sigma fixed'
+            if okb and oke:
+                ctx.ok(rule, where, construct,
+                       '[%s] bottom block read as (n_samples, n_hdim), noise '
+                       'block as (n_samples, n_observables, n_times)' % mode,
+                       engine=ENG)
+            else:
+                ctx.violation(
+                    rule, where, construct, 'parse ' + mode,
+                    '[%s] the flat vector is not parsed as [top | '
+                    '(n_samples, n_hdim) | (n_samples, n_observables, '
+                    'n_times)]: bottom=%r, epsilon=%r' % (mode, bot, eps),
+                    engine=ENG)
+    # (2) published names and ids
+    for m, what in (('get_parameter_names', 'names'), ('get_id', 'IDs')):
+        fn = repo.method(cls, m)
+        for sigma_free in (True,):
+            env = _filter_env(cfgA, sigma_free)
+            lf = _FilterLifter(repo, cls, cfgA, flags={
+                'unique': False, 'exclude_bottom_level': False,
+                'include_ids': False})
+            try:
+                val = lf.run(fn, env)
+            except Exception as e:
+                ctx.error(rule, '%s.%s: %s' % (cls, m, e))
+                continue
+            construct = '%s.%s' % (cls, m)
+            where = repo.loc(fn, cls, m)
+            if not (isinstance(val, Arr) and val.parts
+                    and len(val.parts) == 3):
+                ctx.error(rule, '%s: %s not derived as [top | bottom | '
+                          'noise] (%r)' % (construct, what, val))
+                continue
+            top, bot, eps = val.parts
+            n_top = env['self._n_top']
+            if not eq(top.axes[0].size, n_top):
+                ctx.violation(rule, where, construct, 'top length',
+                              'published %s start with %s population-level '
+                              'entries, expected n_top = %s' % (
+                                  what, top.axes[0].size, n_top), engine=ENG)
+            wb = ((N_S.name, N_S), (N_DIM.name, N_DIM))
+            we = ((N_S.name, N_S), (N_O.name, N_O), (N_T.name, N_T))
+            bn, en = bot.axes[0].nest, eps.axes[0].nest
+            if m == 'get_id':
+                # within one simulated individual all labels are equal: only
+                # the outermost factor and the block size matter
+                okb = bn and bn[0][0] == N_S.name and eq(
+                    bot.axes[0].size, N_S * N_DIM)
+                oke = en and en[0][0] == N_S.name and eq(
+                    eps.axes[0].size, N_S * N_O * N_T)
+            else:
+                okb, oke = nest_eq(bn, wb), nest_eq(en, we)
+            if okb:
+                ctx.ok(rule, where, construct, 'bottom %s laid out '
+                       '(n_samples > n_hdim)' % what, engine=ENG)
+            else:
+                ctx.violation(
+                    rule, where, construct, 'bottom ' + what,
+                    'the individual-level %s are laid out (%s); the vector '
+                    'is parsed as (n_samples > n_hdim)' % (
+                        what, nest_str(bn)), engine=ENG)
+            if oke:
+                ctx.ok(rule, where, construct, 'noise %s laid out '
+                       '(n_samples > n_observables > n_times)' % what,
+                       engine=ENG)
+            else:
+                ctx.violation(
+                    rule, where, construct, 'noise ' + what,
+                    'the noise-realisation %s are laid out (%s) but the '
+                    'vector is parsed with reshape(n_samples, '
+                    'n_observables, n_times): %s k does not describe '
+                    'position k whenever there are several outputs and '
+                    'times' % (what, nest_str(en), what[:-1]), engine=ENG)
+    # (3) quick paths of the special-dimension helpers
+    for cname, cfg in FILTER_CONFIGS.items():
+        for sigma_free in (True, False):
+            mode = '%s, sigma %s' % (cname, 'free' if sigma_free else 'fixed')
+            env0 = _filter_env(cfg, sigma_free)
+            n_dim = cfg['n_dim']
+            if cfg.get('two'):
+                top = ShapeLifter(repo, cls).concat([
+                    Arr([Ax(N_S * D1, ((N_S.name, N_S), (D1.name, D1)))]),
+                    Arr([Ax(N_S * D2, ((N_S.name, N_S), (D2.name, D2)))])])
+            elif cname.startswith('all heterogeneous'):
+                top = Arr([Ax(N_S * N_DIM,
+                              ((N_S.name, N_S), (N_DIM.name, N_DIM)))])
+            else:
+                top = Arr([Ax(cfg['n_pop'])])
+            # _reshape_bottom_parameters
+            fn = repo.method(cls, '_reshape_bottom_parameters')
+            env = dict(env0)
+            env['bottom_parameters'] = Arr([Ax(N_S), Ax(cfg['n_hdim'])])
+            env['top_parameters'] = top
+            lf = _FilterLifter(repo, cls, cfg)
+            construct = '%s._reshape_bottom_parameters [%s]' % (cls, cname)
+            try:
+                val = lf.run(fn, env)
+            except Exception as e:
+                ctx.error(rule, '%s: %s' % (construct, e))
+                val = None
+            bad = _emit_events(ctx, rule, repo, cls, fn, lf, construct)
+            if isinstance(val, Arr) and not bad:
+                if val.ndim == 2 and eq(val.axes[0].size, N_S) and eq(
+                        val.axes[1].size, n_dim):
+                    ctx.ok(rule, repo.loc(fn, cls, fn.name), construct,
+                           '[%s] returns (n_samples, n_dim)' % mode,
+                           engine=ENG)
+                else:
+                    ctx.violation(
+                        rule, repo.loc(fn, cls, fn.name), construct,
+                        'result shape', '[%s] returns shape %s, expected '
+                        '(n_samples, n_dim)' % (mode, tuple(
+                            str(a.size) for a in val.axes)), engine=ENG)
+            # _remove_duplicates
+            fn = repo.method(cls, '_remove_duplicates')
+            env = dict(env0)
+            env['sensitivities'] = Arr([Ax(env0['self._n_parameters'])])
+            env['dbottom'] = Arr([Ax(N_S), Ax(n_dim)])
+            lf = _FilterLifter(repo, cls, cfg)
+            construct = '%s._remove_duplicates [%s]' % (cls, mode)
+            try:
+                lf.run(fn, env)
+            except Exception as e:
+                ctx.error(rule, '%s: %s' % (construct, e))
+            bad = _emit_events(ctx, rule, repo, cls, fn, lf, construct)
+            if not bad:
+                ctx.ok(rule, repo.loc(fn, cls, fn.name), construct,
+                       'all slice updates are shape-consistent', engine=ENG)
+    # (4) initial points: every block is drawn per initial point
+    fn = repo.method(cls, 'sample_initial_parameters')
+    env = _filter_env(cfgA, True)
+    env.update({'n_samples': sym('n_init'), 'seed': Opaque('seed'),
+                'rng': Opaque('rng')})
+    lf = _FilterLifter(repo, cls, cfgA, flags={'seed is None': False})
+    construct = '%s.sample_initial_parameters' % cls
+    try:
+        lf.run(fn, env)
+    except Exception as e:
+        ctx.note(rule, '%s: walk stopped: %s' % (construct, e))
+    bad = _emit_events(ctx, rule, repo, cls, fn, lf, construct)
+    if not bad:
+        ctx.ok(rule, repo.loc(fn, cls, fn.name), construct,
+               'noise realisations are drawn with one row per initial point',
+               engine=ENG)
+    ctx.floor(rule, 20)
